@@ -235,8 +235,10 @@ def _atoms(r):
     fs = []
     from .common import decompose
 
-    c, p = conds[-1]
-    _decomp_or(c, p, fs)
+    # the guard of the raise: every enclosing branch condition (a nested `if a: if b: raise` is the same guard as
+    # `if a and b: raise`)
+    for c, p in conds:
+        _decomp_or(c, p, fs)
     for c2, p2 in fs:
         out.extend(_cmp_atoms(c2, p2))
     return out
@@ -280,6 +282,7 @@ def _has(t, *tokens):
     for x in tm.walk(t):
         if x.op == "param":
             have.add("p:" + x.a[0])
+            have.add("iter")  # a loop over [(ref..), (est..)] unrolled into explicit per-annotation code reads the parameter itself
         elif x.op == "attr":
             have.add("a:" + x.a[1])
         elif x.op == "call":
@@ -437,6 +440,15 @@ def rule_defassign(ctx):
             yield ob("C14.DEFASSIGN", f, "%s:locals" % f.qual, True, "no local is read on a path where it may be unassigned")
             continue
         for nme, u in sorted(names.items()):
+            # the unassigned alternative may be unreachable under the facts of the path (a validated flag decides both
+            # the assignment and the read): decided on the finite model of the comparisons involved
+            from .. import finmodel
+
+            sites = [x for x in s.by_kind("maybe_undef") if x.name == nme]
+            derived = all(finmodel.may_be_undef(x.d.get("term"), list(symeval.pc_conds(x.pc))) is False for x in sites if x.d.get("term") is not None) and bool(sites)
+            if derived:
+                yield ob("C14.DEFASSIGN", f, "%s:%s" % (f.qual, nme), True, "local %r: the unassigned alternative is excluded by the conditions on every path that reads it (finite model of the comparisons)" % nme, node=u.node)
+                continue
             rev = UNDEF_REVIEWED.get((f.qual, nme))
             yield ob("C14.DEFASSIGN", f, "%s:%s" % (f.qual, nme), rev is not None, "local %r may be read before assignment%s" % (nme, (" (reviewed: %s)" % rev) if rev else " (UnboundLocalError on that path)"), node=u.node)
 
@@ -744,6 +756,22 @@ def rule_perannotation(ctx):
     f = ctx.program.func("segment.validate_structure", R)
     s = ctx.S.get(f.qual)
     loops = [(lid, it) for lid, (node, it) in s.loops.items() if it.op in ("list", "tuple") and len(it.a) == 2 and all(x.op == "tuple" for x in it.a)]
+    if not loops:
+        # unrolled form: each test exists once for the reference and once for the estimate
+        per_role = {"R": 0, "E": 0}
+        for r in s.by_kind("raise"):
+            rs = set()
+            own = [c for c, _p, o in symeval.pc_conds_full(r.pc) if o is None]
+            for c in own[-1:]:
+                rs |= roles(c)
+            if rs in ({"R"}, {"E"}):
+                per_role[next(iter(rs))] += 1
+        calls = [c for c in s.calls() if c.callee == "util.validate_intervals"]
+        both_calls = {frozenset(roles(c.args[0])) for c in calls if c.args} == {frozenset({"R"}), frozenset({"E"})}
+        ok = per_role["R"] >= 2 and per_role["R"] == per_role["E"] and both_calls
+        yield ob(R, f, "segment.validate_structure:loop-covers-both", ok, "the per-annotation tests are written out once for the reference and once for the estimate (%d each)" % per_role["R"] if ok else "per-annotation tests: %d on the reference, %d on the estimate" % (per_role["R"], per_role["E"]))
+        yield ob(R, f, "segment.validate_structure:per-annotation-tests", ok, "validate_intervals, the label-count test and the starts-at-0 test run for both annotations")
+        return
     need(len(loops) == 1, R, "validate_structure: loop over the two annotations not found")
     lid, it = loops[0]
     both = {frozenset(roles(x)) for x in it.a} == {frozenset({"R"}), frozenset({"E"})}
